@@ -161,6 +161,32 @@ PROPS = {
                 "Oracle: A: concatenated payloads then io.EOF, Header of the first member, standard library agrees; B: each member's payload and header in order, after each member the bytes still obtainable from the source (buffered + underlying) are exactly what follows that member, trailing data untouched, Reset with nothing left returns io.EOF. Non-trivial = >= 2 members.",
         "assumptions": COMMON_ASSUME,
     },
+    "C11": {
+        "level": "exploration",
+        "tests": [{"name": "TestC11", "quick": 20000, "thorough": 300000}],
+        "rule": "cases = (flate | gzip with Multistream(false) | zlib) x stream written by fastgo or the standard library at levels -2,-1,0,1,2,6 with 1-4 Flush calls at drawn offsets x prefix end (one of the flush points, or the end of the stream/trailer) x behaviour of the source after the prefix (0: every further Read is counted as an over-demand and answered with a sentinel error - the clock-free model of 'would block forever'; 1: a source error; 2: unrelated bytes) x chunking of the prefix x source path (plain -> the Reader's own 4096-byte bufio; *bufio.Reader of 16..64Ki) x Read sizes. "
+                "Oracle: D = data written before the prefix end (recorded while writing). Violation iff a Read call makes the source record an over-demand while fewer than len(D) bytes have been handed out, or the output is not D, or an error arrives before D is complete; at the end of the stream io.EOF must arrive with zero over-demands. "
+                "Non-trivial = D non-empty and the released prefix is shorter than the bufio buffer in use.",
+        "assumptions": COMMON_ASSUME + ["'blocks forever' is modelled by counting demands on the source, which is exact for a Reader that calls its source synchronously from Read (the library starts no goroutines)"],
+    },
+    "C15": {
+        "level": "fault_enumeration",
+        "tests": [{"name": "TestC15", "quick": 1600, "thorough": 24000}],
+        "rule": "cases = (flate | gzip multistream with 1-2 members | zlib; fastgo or standard encoder; payload mostly <= 2000 bytes; error value in {custom sentinel, io.ErrClosedPipe, io.ErrUnexpectedEOF, *os.PathError}; error alone or together with the last good bytes; source chunking; plain source or *bufio.Reader of 16/64/4096; Read sizes) drawn by rapid; for each case EVERY k in 0..len (containers <= 400 bytes; otherwise first/last 40, a stride and 4 KiB boundaries) is injected as 'source fails after delivering k bytes'; gzip also k = len (failure while probing for the next member). "
+                "Oracle: the Reader (or its constructor) ends with exactly that error value; bytes returned before are a prefix of the true payload; the next three Reads return the same error and no data. evaluations = (case, k) pairs; non-trivial = k >= 1.",
+        "assumptions": COMMON_ASSUME,
+    },
+    "C17": {
+        "level": "exploration",
+        "race": True,
+        "tests": [
+            {"name": "TestC17", "quick": 160, "thorough": 3000},
+            {"name": "TestC17", "tag": "-race", "race": True, "quick": 40, "thorough": 600, "shards": {"quick": 1, "thorough": 2}},
+        ],
+        "rule": "cases = sets of 2-12 independent jobs, each on its own Writer/Reader values: writer runs (flate/gzip/zlib, accelerated levels, Write/Flush/Close, optional failing destination; digest covers emitted bytes and errors), reader runs over valid, truncated and malformed streams incl. sets dominated by fixed-Huffman blocks (shared package-level tables), Reader Reset reuse (C13 cases) and Writer Reset reuse (C12 cases). Each job runs alone first (digest of everything it observes), then all jobs run concurrently, one goroutine each, released together, under GOMAXPROCS in {1,2,4,16}, three rounds; also built with -race (GORACE=halt_on_error=1). "
+                "Oracle: every concurrent digest equals the solo digest; the race detector reports nothing. Non-trivial = >= 2 jobs of >= 2 kinds. measurements.sum_concurrent_job_executions counts the concurrent executions.",
+        "assumptions": COMMON_ASSUME + ["interleavings are chosen by the Go scheduler, not enumerated; the race detector does not see memory touched only by assembly"],
+    },
 }
 
 # Texts for MANIFEST.json, per claimed property.
@@ -266,5 +292,23 @@ MANIFEST_TEXT = {
         "text": "Generated member sequences are read in multistream mode and member by member with Reset on the same *bufio.Reader; after every member the remaining source content must be exactly the following members plus trailing data.",
         "note": "Sources are *bufio.Reader as the property requires.",
         "design_ref": "DESIGN.md section 4, C08",
+    },
+    "C11": {
+        "technique": "property-based testing (rapid) with a harness-owned delivery schedule: gated source that counts demands after a released prefix",
+        "text": "The harness owns the source: it releases the compressed bytes up to a generated sync-flush point (or the stream end) and counts any further demand. A demand made while decodable data is still owed is exactly the condition under which a really blocking source would hang the caller, stated without a clock.",
+        "note": "Exact for synchronous Readers; sync points and the data before them are recorded while the stream is written.",
+        "design_ref": "DESIGN.md section 4, C11",
+    },
+    "C15": {
+        "technique": "fault injection enumerated over every source byte offset, driven by rapid-generated containers, error values and delivery schedules",
+        "text": "For each generated container the source is made to fail after every byte count k (exhaustive for small containers) with several error values, alone or together with data; the Reader must surface exactly that value, only correct data before it, and keep returning it.",
+        "note": "io.EOF and bufio.ErrBufferFull are not used as injected errors (the first is not a failure, the second is not something a source produces).",
+        "design_ref": "DESIGN.md section 4, C15",
+    },
+    "C17": {
+        "technique": "randomised concurrent stress of generated workload sets with solo-vs-concurrent digest comparison, plus the Go race detector",
+        "text": "Generated sets of independent Writer/Reader workloads are run alone and then concurrently under several GOMAXPROCS values; any difference in bytes or errors, or any race report, is a violation. This is exploration of scheduler-chosen interleavings, the weakest reach of the set for this technique.",
+        "note": "Schedules are not owned or shrunk; a failure saves the workload set, a rerun may need several rounds (replay uses 20).",
+        "design_ref": "DESIGN.md section 4, C17",
     },
 }
